@@ -142,7 +142,7 @@ class C01(Check):
     def cases(self, group, tier, seed):
         shape = tuple(group["shape"])
         n = len(shape)
-        for mode in range(n):
+        for mode in range(-n, n):
             yield {"op": "unfold", "shape": shape, "mode": mode, "seed": seed}
         yield {"op": "vec", "shape": shape, "seed": seed}
         if n >= 6:
@@ -199,7 +199,7 @@ class C01(Check):
         seed = case.get("seed", 0)
 
         if op == "unfold":
-            m = case["mode"]
+            m = case["mode"] % n  # negative modes count from the end (Python / NumPy axis convention, honoured by unfold and fold)
             groups = [[m], [k for k in range(n) if k != m]]
         elif op == "vec":
             groups = [list(range(n))]
